@@ -16,6 +16,7 @@ index inside the partition (finite domain: the generated program list).
 from __future__ import annotations
 
 import itertools
+import os
 import subprocess
 from typing import List, Optional
 
@@ -558,7 +559,7 @@ def replay_chain(a):
     outs = {f"c{i}": a.get(f"o{i}", False) for i in range(NL)}
     p = subprocess.run([sys.executable, "-c", _REPLAY_SNIPPET,
                         json.dumps([src, codes, outs, a["f_raise"], a["f_cmd"]])],
-                       capture_output=True, text=True, timeout=120, cwd="/repo")
+                       capture_output=True, text=True, timeout=120, cwd=os.environ.get("VERIF_REPO", "/repo"))
     i = p.stdout.rfind("@@R@@")
     if i < 0:
         raise RuntimeError("replay child failed: " + p.stderr[-800:])
